@@ -9,7 +9,9 @@ CONSTANTS
   Ops = {}
   MaxInFlight = 0
   AuctionImpl = "intended"
+  Resolution = "locked"
   MaxRounds = 2
 INVARIANTS TypeOKC11 ForwardedAll
 CONSTRAINT RoundBound
+CONSTRAINT NoLane2
 CHECK_DEADLOCK FALSE
